@@ -2707,19 +2707,17 @@ class Parameters:
         self_or_cls = self_.self_or_cls
         if arg is not Undefined:
             kwargs = dict(arg, **kwargs)
-        BATCH_WATCH = self_._BATCH_WATCH
-        self_._BATCH_WATCH = True
-
         trigger_params = [
             k for k in kwargs
             if k in self_ and hasattr(self_[k], '_autotrigger_value')
         ]
-
-        for tp in trigger_params:
-            self_[tp]._mode = 'set'
-
         values = self_.values()
         restore = {k: values[k] for k, v in kwargs.items() if k in values}
+
+        BATCH_WATCH = self_._BATCH_WATCH
+        self_._BATCH_WATCH = True
+        for tp in trigger_params:
+            self_[tp]._mode = 'set'
 
         applied = []
         try:
